@@ -1,13 +1,32 @@
 """W-kafka: the Kafka client built by Kafka.NewBuilder() (router, heap balancer,
 serializer, shared sink, resurrector, Kafka mux transport) against simulated
 v0 brokers that parse every request with the harness's own parser (C15)."""
-PROPS = ('C15', 'C11')
+PROPS = ('C15', 'C11', 'C12')
 RACE_PROBES = ('replies_reordered', 'concurrent_puts', 'metadata_refreshed', 'error_code_reply',
                'empty_payload_list', 'large_payload', 'binary_payload', 'retry_after_not_leader')
 SHRINK_KEYS = ('ops',)
 
 
-def generate(rng, tier='quick', **kw):
+def generate(rng, tier='quick', family=None, **kw):
+  if family == 'stale_meta' or (family is None and rng.random() < 0.1):
+    # a Put is refused with "not leader" when the topic's metadata is older than
+    # the router's refresh interval (10 s): the router asks for fresh metadata
+    # before it retries, the answer is slow, and the Put's deadline passes while
+    # the retry is waiting for it
+    n_brokers = rng.randint(1, 2)
+    topics = {'t0': [rng.randrange(n_brokers)]}
+    ops = [{'t': 0.1, 'op': 'put', 'id': 'c0', 'topic': 't0', 'payloads': [b'c0|first'.hex()], 'acks': 1,
+            'timeout': 2.0, 'svc': {'delay': 0.002, 'error': 0}}]
+    t = rng.choice([10.6, 12.0, 25.0])
+    for i in range(1, rng.randint(2, 4)):
+      ops.append({'t': round(t, 4), 'op': 'put', 'id': 'c%d' % i, 'topic': 't0',
+                  'payloads': [('c%d|retry-me' % i).encode().hex()], 'acks': 1,
+                  'timeout': rng.choice([0.3, 0.5]), 'svc': {'delay': 0.002, 'error': rng.choice([6, 6, 0])}})
+      t += rng.choice([0.0, 0.05, 1.0])
+    return {'world': 'w_kafka', 'brokers': n_brokers, 'topics': topics, 'ops': ops, 'meta_extra': {},
+            'meta_topic_err': {}, 'directives': [], 'offset_base': 0, 'bootstrap': [0],
+            'net': {'chunk': rng.choice(['none', 'some']), 'jitter': 0.0}, 'unknown_topic': False,
+            'family': 'stale_meta', 'slow_meta': {'after': 5.0, 'delay': rng.choice([0.8, 1.5, 3.0])}}
   n_brokers = rng.randint(1, 3)
   topics = {}
   for ti in range(rng.randint(1, 3)):
@@ -76,6 +95,7 @@ def generate(rng, tier='quick', **kw):
                          'nth': rng.randint(1, 6), 'kind': 'block', 'arg': rng.choice([0.02, 0.1, 0.3])})
   return {'world': 'w_kafka', 'brokers': n_brokers, 'topics': topics, 'ops': ops, 'meta_extra': extra,
           'meta_topic_err': topic_err, 'directives': directives,
+          'offset_base': rng.choice([0, 0, 2 ** 31 - 1003, 2 ** 32 - 5, 3000000000, 2 ** 40 + 2 ** 31, 2 ** 63 - 5000]),
           'bootstrap': sorted(rng.sample(range(n_brokers), rng.randint(1, n_brokers))),
           'net': {'chunk': rng.choice(['none', 'some', 'bytes']), 'jitter': rng.choice([0.0, 0.0005])},
           'unknown_topic': rng.random() < 0.1}
@@ -104,6 +124,7 @@ def run(scn):
   ss.socket = sm
 
   topics = scn['topics']
+  t_start = CLOCK.now
   tracker = CallTracker(default_timeout=5.0)
   by_list = {}
   tracker.id_from_args = lambda args, kwargs: by_list.get(id(args[1])) if len(args) > 1 else None
@@ -130,7 +151,11 @@ def run(scn):
           tl = dict([(k, tl[k]) for k in sorted(tl, key=lambda k: (k not in terr, k))])
         sent_meta.append((bl, tl))
         out = encode_metadata(corr, bl, tl, terr)
-        conn.server_send(struct.pack('!i', len(out)) + out, 0.001)
+        sm_ = scn.get('slow_meta')
+        slow = sm_ is not None and CLOCK.now - t_start > sm_['after']
+        if slow:
+          REC.probe('slow_metadata_refresh')
+        conn.server_send(struct.pack('!i', len(out)) + out, sm_['delay'] if slow else 0.001)
         return
       # produce
       pr = req.get('produce') or []
@@ -191,6 +216,8 @@ def run(scn):
   brokers = []
   for i in range(scn['brokers']):
     b = KafkaBroker(world, i)
+    # log offsets are 64-bit: partitions that have been written to for a while
+    b.next_offset += scn.get('offset_base', 0)
     net.add_endpoint('k%d' % i, 9092 + i, b, 0.0005)
     brokers.append(b)
 
@@ -230,6 +257,20 @@ def run(scn):
   gevent.sleep(4.0)
 
   # ---- oracles ----
+  # C12: once the caller of a Put has been handed TimeoutError, nothing of that
+  # Put is written to a broker connection any more (its retry included)
+  for c in tracker.order:
+    cd = c.caller_done()
+    mark = c.extra.get('done_seq')
+    if cd is None or mark is None or cd[1] != 'exc' or exc_name(cd[2]) != 'TimeoutError' or not c.extra['payloads']:
+      continue
+    needle = ('%s|' % c.id).encode()
+    for seq, when, conn_id, data in net.send_log:
+      if seq > mark and needle in data:
+        REC.violation('C12', 'sent_after_timeout',
+                      'Put %s was handed TimeoutError at %.6f; its request was written to conn %s at %.6f' % (
+                        c.id, cd[0] - t_start, conn_id, when - t_start), {'stack': 'kafka'})
+        break
   for b in brokers:
     for e in b.errors:
       REC.violation('C15', 'request_unparseable', 'broker %d: %s' % (b.node_id, e))
